@@ -181,10 +181,15 @@ fn adversarial(ctor: Ctor, gen: usize, len: usize) -> (u64, u64, Vec<Viol>) {
             1 => if pos_in_window == w - 1 { 0 } else { 3 },             // a right before each boundary
             2 => if pos_in_window == 0 { ((i / w) % 2) as u8 } else { 3 }, // a / b alternate after boundaries
             3 => if i % (w + 1) == 0 { 0 } else if i % 7 == 3 { 1 } else { 3 }, // a slightly rarer than 1/width, drifting across windows
-            _ => if (i / w) % 3 == 0 && pos_in_window < 2 { 2 } else { 3 }, // bursts of c every third window
+            4 => if (i / w) % 3 == 0 && pos_in_window < 2 { 2 } else { 3 }, // bursts of c every third window
+            5 => if i * 20 > len * 19 && i % 2 == 0 { 2 } else if pos_in_window == 0 { 0 } else { 3 }, // a heavy hitter that first appears in the last 5 % of a long stream
+            _ => if i >= 65_540 * w { 2 } else if pos_in_window == 0 { 0 } else { 3 }, // late flood: after more than 65536 windows every add is c, until c exceeds epsilon*n
         };
         stream.push(sym);
-        let bad = add(&mut st, sym).or_else(|| check(&st, &th, &mut cmp));
+        // very long streams: add()'s contract at every step, the full threshold oracle at every 16th prefix
+        // (a missed or intruding element persists over many prefixes)
+        let full = len <= 50_000 || i % 16 == 15 || i + 1 == len;
+        let bad = add(&mut st, sym).or_else(|| if full { check(&st, &th, &mut cmp) } else { None });
         if let Some((sig, msg)) = bad {
             let v = Viol { property: "C09".into(), signature: format!("lossycounter {}", sig), message: format!("{:?} adversarial generator {}: {}", ctor, gen, msg), replay: json!({"structure": "LossyCounter", "constructor": format!("{:?}", ctor), "generator": gen, "stream_len": stream.len(), "stream_tail": stream.iter().rev().take(40).rev().map(|&s| sym_name(s)).collect::<Vec<_>>()}) };
             return (stream.len() as u64, cmp, vec![v]);
@@ -209,11 +214,19 @@ fn main() {
         }
     }
     // large widths for the adversarial generators
-    for c in [Ctor::Width(50), Ctor::Eps(0.013), Ctor::Width(7)] {
+    for c in [Ctor::Width(50), Ctor::Eps(0.013), Ctor::Width(7), Ctor::Width(300), Ctor::Eps(0.0021)] {
         for g in 0..5 {
-            jobs.push((c, -1 - g, if thorough { 30_000 } else { 4_000 }));
+            jobs.push((c, -1 - g, if thorough { 60_000 } else { 8_000 }));
         }
     }
+    // very many windows (counters of the window index must not wrap or saturate): width 1 and 2
+    jobs.push((Ctor::Width(2), -1 - 6, 65_540 * 2 * 2 + 20_000));
+    jobs.push((Ctor::Width(2), -1 - 5, 140_000));
+    if thorough {
+        jobs.push((Ctor::Width(3), -1 - 6, 65_540 * 3 * 2 + 20_000));
+        jobs.push((Ctor::Width(3), -1 - 3, 420_000));
+    }
+    jobs.sort_by_key(|j| std::cmp::Reverse(j.2));
     let res = par_map(&jobs, n_threads(), |&(c, k, d)| if k >= 0 { tree(c, d, k as u8) } else { adversarial(c, (-1 - k) as usize, d) });
     let (mut nodes, mut cmp, mut long_prefixes) = (0u64, 0u64, 0u64);
     for ((_, k, _), (n, c, vs)) in jobs.iter().zip(res) {
